@@ -124,7 +124,9 @@ class GeneratedElitism(Facet):
         return (300, 2) if tier == "quick" else (2000, 16)
 
     def strategy(self, tier):
-        val = st.one_of(st.integers(-3, 3), st.sampled_from([0.0, 0.5, -0.5, 1e9, -1e9]), st.floats(-5, 5, allow_nan=False))
+        from vk.values import single_objective_values
+
+        val = single_objective_values()
         return st.integers(1, 12).flatmap(
             lambda n: st.builds(
                 lambda values, entries, kk, minimize, form: {"values": values, "entries": entries, "k": 1 + kk % len(entries), "minimize": minimize, "form": form},
@@ -252,4 +254,115 @@ class MonotoneBest(Facet):
             w.cleanup()
 
 
-FACETS = [ExhaustiveElitism(), GeneratedElitism(), MonotoneBest()]
+class ElitismBesideSiblings(Facet):
+    """One application of ParallelStep([... selection steps ..., elitism at a generated position]) to a
+    table-driven population under a single- or multi-objective problem: whatever its sibling steps
+    do with the population they are handed, the elitism step must return the best of the
+    ParallelStep's INPUT (by the reference aggregate)."""
+
+    name = "elitism_beside_sibling_selection_steps"
+
+    def budget(self, tier):
+        return (150, 2) if tier == "quick" else (1000, 16)
+
+    def strategy(self, tier):
+        from vk.values import exact_int_values
+
+        sel = st.one_of(
+            st.builds(lambda t, r: ["tournament", t, r], st.integers(1, 4), st.booleans()),
+            st.builds(lambda e: ["lexicase", e], st.booleans()),
+        )
+        sib = st.one_of(sel, st.builds(lambda a, b: ["seq", [a, b]], sel, sel))
+        return st.integers(1, 3).flatmap(
+            lambda k: st.builds(
+                lambda vecs, entries, sibs, pos, ws, n, minimize, form, multi: {
+                    "values": vecs, "entries": entries, "siblings": sibs, "pos": pos, "weights": ws, "n": n, "minimize": minimize, "form": form, "multi": multi or k > 1,
+                },
+                st.lists(st.lists(exact_int_values(0, 5), min_size=k, max_size=k), min_size=2, max_size=8),
+                st.lists(st.integers(0, 7), min_size=2, max_size=10),
+                st.lists(sib, min_size=1, max_size=2),
+                st.integers(0, 2),
+                st.lists(st.integers(1, 5), min_size=3, max_size=3),
+                st.integers(2, 12),
+                st.lists(st.booleans(), min_size=k, max_size=k),
+                st.sampled_from(["list", "list", "population"]),
+                st.booleans(),
+            ),
+        )
+
+    def run(self, case, rec):
+        from geneticengine.algorithms.gp.operators.combinators import ParallelStep
+        from geneticengine.algorithms.gp.operators.elitism import ElitismStep
+        from geneticengine.algorithms.gp.population import Population
+        from geneticengine.evaluation.sequential import SequentialEvaluator
+        from geneticengine.evaluation.tracker import MultiObjectiveProgressTracker, SingleObjectiveProgressTracker
+        from geneticengine.problems import MultiObjectiveProblem, SingleObjectiveProblem
+        from geneticengine.random.sources import NativeRandomSource
+        from geneticengine.solutions.individual import Individual
+
+        vecs, minimize = case["values"], case["minimize"]
+        multi = case["multi"]
+        sibs = case["siblings"]
+        if not multi:
+            # lexicase selection is documented for multi-objective problems only
+            sibs = [s for s in sibs if "lexicase" not in str(s)] or [["tournament", 2, False]]
+            problem = SingleObjectiveProblem(lambda p: p[1][0], minimize=minimize[0])
+        else:
+            problem = MultiObjectiveProblem(list(minimize), lambda p: list(p[1]))
+
+        def agg(vec):  # reference: maximising aggregate = sum of direction-adjusted components
+            return sum(-v if m else v for v, m in zip(vec, minimize))
+
+        ev, rep = SequentialEvaluator(), TableRep()
+        table = [Individual((i, tuple(v)), rep) for i, v in enumerate(vecs)]
+        pop = [table[i % len(table)] for i in case["entries"]]
+        got = []
+
+        class SpyElitism(ElitismStep):
+            def iterate(self, problem, evaluator, representation, random, population, target_size, generation):
+                out = list(ElitismStep.iterate(self, problem, evaluator, representation, random, population, target_size, generation))
+                got.append((target_size, out))
+                yield from out
+
+        steps = [build_step(s) for s in sibs]
+        pos = case["pos"] % (len(steps) + 1)
+        steps.insert(pos, SpyElitism())
+        ws = case["weights"][: len(steps)]
+        tracker = (MultiObjectiveProgressTracker if multi else SingleObjectiveProgressTracker)(problem, ev)
+        inp = list(pop) if case["form"] == "list" else Population(iter(list(pop)), tracker, 0)
+        desc = f"ParallelStep([{', '.join('elitism' if i == pos else step_str(s) for i, s in enumerate(sibs[:pos] + [None] + sibs[pos:]))}], weights={ws}) on fitness {[list(p.genotype[1]) for p in pop]} (minimize={minimize}, {'multi' if multi else 'single'}-objective, target size {case['n']}, {case['form']})"
+        rec.label("multi" if multi else "single", f"elitism-at:{'first' if pos == 0 else 'later'}", "with-lexicase" if "lexicase" in str(sibs) else "no-lexicase")
+        try:
+            list(ParallelStep(steps, ws).apply(problem, ev, rep, NativeRandomSource(case["n"]), inp, case["n"], 1))
+        except Exception as e:  # noqa: BLE001 - sizes / selection preconditions are C15's and C17's subject
+            rec.discard()
+            rec.label("discarded:" + type(e).__name__)
+            return
+        rec.sample({"step": desc}, limit=2)
+        for k, out in got:
+            if k <= 0:
+                continue
+            if pos > 0 and len(pop) > k:
+                rec.nontrivial((str(sibs), pos, tuple(map(tuple, vecs)), tuple(case["entries"]), k))
+            kk = min(k, len(pop))
+            ids = [id(x) for x in pop]
+            for o in out:
+                if id(o) not in ids:
+                    rec.fail("C16/siblings/elite-not-from-the-input", f"{desc}: elitism returned an individual that is not in the input")
+                    return
+                ids.remove(id(o))
+            if len(out) != kk:
+                rec.fail("C16/siblings/elite-count", f"{desc}: elitism was asked for {k} and returned {len(out)} of an input of {len(pop)}")
+                return
+            rest = [x for x in pop if id(x) in ids]
+            worst_in = min(agg(o.genotype[1]) for o in out)
+            best_out = max((agg(x.genotype[1]) for x in rest), default=None)
+            if best_out is not None and best_out > worst_in:
+                rec.fail(
+                    "C16/siblings/excluded-strictly-better-than-included",
+                    f"{desc}: elitism kept aggregates {[agg(o.genotype[1]) for o in out]} although an input individual with aggregate {best_out} was left out",
+                )
+                return
+
+
+FACETS = [ExhaustiveElitism(), GeneratedElitism(), MonotoneBest(), ElitismBesideSiblings()]
